@@ -85,7 +85,7 @@ func nextPacket(r io.Reader) (*parser.Packet, error) {
 			if err != nil {
 				return nil, err
 			}
-			expectedLen = int(binary.BigEndian.Uint32(header[:]))
+			expectedLen = int(binary.BigEndian.Uint64(header[:]))
 			state = ReadPayload
 		case ReadPayload:
 			return parser.DecodeWithLen(r, isBinary, expectedLen)
